@@ -223,7 +223,13 @@ def rand_db(rng, namespaces, peers, weird):
 
 
 def first_diff(a, b):
-    """Name the first member in which two field dicts differ (for mechanism keys)."""
+    """Class of the difference between the expected (a) and observed (b) keys of one peer."""
+    if a is None or b is None:
+        return 'entry-missing' if b is None else 'entry-unexpected'
+    if set(a) - set(b) and all(a[m] == b[m] for m in set(a) & set(b)):
+        return 'members-lost'
+    if set(b) - set(a) and all(a[m] == b[m] for m in set(a) & set(b)):
+        return 'members-unexpected'
     for m in list(ref.INT_FIELDS) + list(ref.KEY_FIELDS):
         x, y = (a or {}).get(m), (b or {}).get(m)
         if x == y:
@@ -396,7 +402,7 @@ async def history(rng: random.Random, r, weird_ok=True):
                               f'{op} on {target!r} changed {others}: file={show_db(raw)}; {ctx()}')
                     else:
                         e, g = model.db.get(target, {}), raw.get(target, {})
-                        bad_peers = [p for p in set(e) | set(g) if e.get(p) != g.get(p)]
+                        bad_peers = sorted(p for p in set(e) | set(g) if e.get(p) != g.get(p))
                         member = first_diff(e.get(bad_peers[0]), g.get(bad_peers[0])) if bad_peers else 'none'
                         r.bad(f'exact/raw-file/{op}/{kind}/{member}',
                               f'file after {op} = {show_db(raw)}; {ctx()}')
@@ -466,7 +472,7 @@ async def roundtrip_case(case, r):
             g = None if got is None else ref.fields_of(got, problems)
             r.ev('oracle_evals')
             if g != fields or problems:
-                r.bad(f'roundtrip/store/{first_diff(fields, g)}', f'stored then read {g} {problems}; {where()}')
+                r.bad(f'roundtrip/store/{first_diff(fields, g) if g != fields else "python-type"}', f'stored then read {g} {problems}; {where()}')
             # address type must come back as the enum it went in as
             if got is not None and at is not None:
                 r.ev('oracle_evals')
@@ -487,14 +493,14 @@ async def roundtrip_case(case, r):
             g2 = {n: ref.fields_of(pk, problems) for n, pk in allk}
             r.ev('oracle_evals')
             if g2 != {peer: fields} or problems:
-                r.bad(f'roundtrip/layout-read/{first_diff(fields, g2.get(peer))}',
+                r.bad(f'roundtrip/layout-read/{first_diff(fields, g2.get(peer)) if g2 != {peer: fields} else "python-type"}',
                       f'reference-written file read as {g2} {problems}; {where()}')
             # (d) the dict codecs directly
             problems = []
             g3 = ref.fields_of(PairingKeys.from_dict(json.loads(json.dumps(jf(fields)))), problems)
             r.ev('oracle_evals')
             if g3 != fields or problems:
-                r.bad(f'roundtrip/from_dict/{first_diff(fields, g3)}', f'{g3} {problems}; {where()}')
+                r.bad(f'roundtrip/from_dict/{first_diff(fields, g3) if g3 != fields else "python-type"}', f'{g3} {problems}; {where()}')
             try:
                 g4 = ref.decode_fields(json.loads(json.dumps(make_keys(fields).to_dict())))
             except ref.LayoutError as e:
@@ -1042,7 +1048,9 @@ async def crash_case(case, r):
             if state not in ('new', 'both') and (want_new or state != 'old'):
                 clause = {'old': 'not-saved', 'main-file-missing': 'absent', 'main-file-unparseable': 'unparseable',
                           'main-file-not-a-database': 'layout', 'main-file-mixture': 'mismatch'}[state]
-                r.bad(f'exact/raw-file-{clause}/{op}/{kind}', f'after a complete {op}: {m}; {ctx_for(x)()}')
+                r.bad(f'exact/raw-file-{clause}/{op}/{kind}',
+                      f'after a complete {op}: {"file still holds the old database" if state == "old" else m}; '
+                      f'{ctx_for(x)()}')
                 exact = False
                 continue
             r.ev('crash_complete_runs')
@@ -1226,7 +1234,8 @@ async def strace_case(case, r):
         elif state not in ('new', 'both') and (changed or state != 'old'):
             clause = {'old': 'not-saved', 'main-file-missing': 'absent', 'main-file-unparseable': 'unparseable',
                       'main-file-not-a-database': 'layout', 'main-file-mixture': 'mismatch'}[state]
-            r.bad(f'exact/raw-file-{clause}/{op}/{kind}', f'after a complete {op} under strace: {m}; config={label}')
+            r.bad(f'exact/raw-file-{clause}/{op}/{kind}', f'after a complete {op} under strace: '
+                  f'{"file still holds the old database" if state == "old" else m}; config={label}')
         else:
             if state in ('new', 'both') and os.path.exists(final):
                 r.ev('oracle_evals')
@@ -1276,16 +1285,20 @@ def plan(tier, seed):
                 crash.append(({**c, 'size': 'tiny'}, list(MODES)))
     else:
         for c in cfgs:
-            crash.append(({**c, 'size': 'tiny'}, list(MODES)))
-        k = 0
-        for c in cfgs:
-            if c['init'] in ('one', 'multi', 'multi-default') and not c['stale_tmp'] and c['store'] != 'named-new' \
-                    and c['op'] in ('update-new', 'update-merge', 'delete', 'delete_all'):
-                k += 1
-                if k % 2 == 0:
-                    crash.append(({**c, 'size': 'small', 'seed': seed * 7 + k}, list(MODES)))
-                if k % 6 == 0:
-                    crash.append(({**c, 'size': 'big', 'seed': seed * 11 + k}, ['line', 'write', 'fs']))
+            modes = ['line', 'fs', 'write']
+            if c['store'] == 'named' and not c['stale_tmp']:
+                modes.append('write-half')
+            crash.append(({**c, 'size': 'tiny'}, modes))
+        small = [('one', 'named', 'update-new'), ('one', 'default', 'update-merge'), ('multi', 'named', 'delete'),
+                 ('multi-default', 'default', 'update-new'), ('multi-default', 'named', 'delete_all')]
+        big = [('multi', 'named', 'update-merge'), ('multi-default', 'default', 'delete')]
+        for k, c in enumerate(cfgs):
+            if c['stale_tmp']:
+                continue
+            if (c['init'], c['store'], c['op']) in small:
+                crash.append(({**c, 'size': 'small', 'seed': seed * 7 + k}, list(MODES)))
+            if (c['init'], c['store'], c['op']) in big:
+                crash.append(({**c, 'size': 'big', 'seed': seed * 11 + k}, ['line', 'write', 'fs']))
     crash.sort(key=lambda cm: -sum(60 if 'write' in m else 25 for m in cm[1]))
     for c, modes in crash:
         cases.append({'kind': 'crash', 'cfg': c, 'modes': modes})
